@@ -602,11 +602,14 @@ pub fn gen_read_scn(id: &str, rng: &Rng, tier: Tier) -> ReadScn {
                 let est_calls = input.len() / cfg.cap.max(1) + 2;
                 cfg.pause = Some(if rng.chance(1, 3) { 0 } else { rng.small(est_calls) });
                 ops = (0..n + 2).map(|_| match rng.below(4) { 0 => Op::OwnedNext, 1 => Op::ReadSet(0), _ => Op::Next }).collect();
-                for _ in 0..rng.range(2, 5) {
-                    ops.push(if rng.chance(1, 3) { Op::OwnedNext } else { Op::Next });
+                // the end must be sticky for one iterator object: the drain polls on after the end
+                if rng.chance(1, 2) {
+                    ops.clear();
+                } else {
+                    ops.truncate(rng.below(ops.len() as u64 + 1) as usize);
                 }
-            }
-            if id == "C20" && rng.chance(1, 3) {
+                ops.push(Op::Drain);
+            } else if id == "C20" && rng.chance(1, 3) {
                 ops.push(Op::Drain);
             }
             if id != "C20" && rng.chance(1, 6) && n > 1 {
@@ -746,7 +749,7 @@ impl Check for ReadCheck {
             "C13" => "accessor relations evaluated on every record handed out (next, owned, record sets) in histories over wild-byte inputs",
             "C17" => "FASTA: 0..40 leading blank lines then a non-'>' line (also one starting with CR); FASTQ: valid prefix of 0..8 records plus one defect; one run in six reaches the defect after a refused growth and set_policy(Std); capacity placed so the defect lies -3..+3 around a buffer end (or drawn freely); error fields compared with the model, message checked for line, found byte (escape_default), lengths and id; ids longer than 4 KiB and 64 KiB; 1 in 3000: one giant defective group beyond 64 KiB / 1 MiB / 8 MiB",
             "C19" => "serde_json round trip of every owned record and of every record set after each set read - freshly filled, or returned from a failed read (refusing policy / injected I/O error in one run of five) or from an end-of-input read; slots are reused, so stale offsets beyond len() occur; a KiB-buffer profile puts sets far from buffer offset 0 - through three formats: JSON text, serde_json::Value, and CBOR (ciborium: length-prefixed sequences/maps, native byte strings)",
-            "C20" => "seeded histories of next / next_back / nth(k) / nth_back(k) steps on seq_lines() of every FASTA record handed out against a VecDeque model with len()/size_hint() checked before every step, nth/skip overshoot on SeqLines and both RecordSetIters, adaptors enumerate().rev(), enumerate from both ends, skip().rev(), zip().rev(), collect; RecordSetIter size hints and fusedness; RecordsIter/RecordsIntoIter stay at end; internal iteration (count, last, for_each/fold, rfold, rev().fold) of fresh and partly consumed iterators must cover exactly what is left; one run in eight reads a growing input (one read returns Ok(0) before the data ends): once any read has reported the end, every later read reports the end (rule end_not_sticky, model-independent)",
+            "C20" => "seeded histories of next / next_back / nth(k) / nth_back(k) steps on seq_lines() of every FASTA record handed out against a VecDeque model with len()/size_hint() checked before every step, nth/skip overshoot on SeqLines and both RecordSetIters, adaptors enumerate().rev(), enumerate from both ends, skip().rev(), zip().rev(), collect; RecordSetIter size hints and fusedness; RecordsIter/RecordsIntoIter stay at end; internal iteration (count, last, for_each/fold, rfold, rev().fold) of fresh and partly consumed iterators must cover exactly what is left; one run in eight reads a growing input (one read returns Ok(0) before the data ends): once the into_records() iterator has reported the end it keeps reporting the end (rule end_not_sticky, model-independent; with ordinary sources the rule covers every read operation)",
             _ => "",
         };
         format!("{}. A run counts as non-trivial when the reader had to refill, grow, was refused, was interrupted or hit an injected fault; distinct = distinct (input, full seam+outcome event log) hash.", what)
